@@ -398,6 +398,10 @@ func c16Gen(t *rapid.T) C16Case {
 			c.Since = c16BadDuration(t, "since")
 		} else {
 			c.Since = c16GenPromDuration(t, "since", 20*365*24*3600e9)
+			if rapid.IntRange(0, 7).Draw(t, "since-zero") == 0 {
+				// An explicit zero is a value like any other: start = min(end, now).
+				c.Since = C16Flag{Set: true, Valid: true, Text: rapid.SampledFrom([]string{"0", "0s", "0ms", "0h0m0s", "0d"}).Draw(t, "since-zero-text"), Value: 0}
+			}
 		}
 	}
 	if mask&8 != 0 {
